@@ -189,23 +189,27 @@ def run(ctx: Ctx) -> None:
                     return i
         return None
 
-    bad1 = copy.deepcopy(next(t for t in traces if second_exec(t) is not None))
-    k1 = second_exec(bad1)
-    bad1["steps"][k1]["op"]["c"] = "replay"
-    bad1["steps"][k1]["obs"]["kind"] = "replay"
-    bad2 = copy.deepcopy(next(t for t in traces if any(s["obs"]["kind"] == "replay" for s in t["steps"])))
-    k2 = next(i for i, s in enumerate(bad2["steps"]) if s["obs"]["kind"] == "replay")
-    bad2["steps"][k2]["obs"]["count"] += 1
-    allt = traces + [bad1, bad2]
+    allt = list(traces)
+    ctl1, ctl2 = [], []
+    for tid, t in enumerate(traces, 1):
+        k1 = second_exec(t)
+        if k1 is not None and len(ctl1) < 3:
+            bad = copy.deepcopy(t)
+            bad["steps"][k1]["op"]["c"] = "replay"
+            bad["steps"][k1]["obs"]["kind"] = "replay"
+            allt.append(bad)
+            ctl1.append((tid, len(allt), (2, k1 + 1)))
+        k2 = next((i for i, s in enumerate(t["steps"]) if s["obs"]["kind"] in ("replay", "exec")), None)
+        if k2 is not None and len(ctl2) < 3:
+            bad = copy.deepcopy(t)
+            bad["steps"][k2]["obs"]["count"] += 1
+            allt.append(bad)
+            ctl2.append((tid, len(allt), (0, k2 + 1)))
     verdicts, tres = fv.validate_traces(ctx, allt, "runs", **tu, max_objs=0, **flags,
                                         invariants=["RunRaisesOnlyThroughDev", "ReplayIffValid",
                                                     "RaiseOnlyWhenInvalid", "ResultReflects"],
                                         properties=["TExecCounts"])
     ctx.require(len(verdicts) == len(allt), f"verdicts {len(verdicts)} != traces {len(allt)}")
-    ctx.negative_control(verdicts[len(traces) + 1] == (2, k1 + 1),
-                         "a re-execution recorded as a replay must be rejected at that run")
-    ctx.negative_control(verdicts[len(traces) + 2] == (0, k2 + 1),
-                         "an execution count off by one must be rejected at that step")
     nontriv = 0
     for tid in range(1, len(traces) + 1):
         code, pos = verdicts[tid]
@@ -243,6 +247,8 @@ def run(ctx: Ctx) -> None:
         rep.report(f"invariant {tres.violated} violated on a recorded history", {"out": tres.out[-3000:]}, None)
     ctx.note("recorded_traces", {"n": len(traces), "nontrivial": nontriv})
     ctx.sample({"source": "recorded-trace", "wf": traces[0]["wf"], "ops": [s["op"] for s in traces[0]["steps"]]})
+    fv.judge_controls(ctx, verdicts, ctl1, "a re-execution recorded as a replay must be rejected at that run")
+    fv.judge_controls(ctx, verdicts, ctl2, "an execution count off by one must be rejected at that step")
     ctx.note("keyed_occurrences", dict(rep.keyed))
 
 
